@@ -334,3 +334,16 @@ Proof.
   intros ccrc rs n D m i H1 H2 H3 H4 H5 H6 H7 L. rewrite recovery_effects_eq.
   exact (crash_in_recovery sp_checks ccrc rs n D m i H1 H2 H3 H4 H5 H6 H7).
 Qed.
+
+(* a recovery that ends with rc = 0 leaves an empty log behind - also when it found no savepoint and applied
+   nothing (otherwise the discarded records would be replayed by a later open, behind a later savepoint) *)
+Theorem recovery_truncates_log : forall ccrc L D ops,
+  L <> [] -> replay_ops ccrc 1 0 L = (VOk, ops) ->
+  fst (after_effects L D (recovery_effects ccrc L D)) = [].
+Proof.
+  intros ccrc L D ops HL Hrep. unfold recovery_effects.
+  destruct (Z.eqb_spec (lenZ L) 0) as [E|E].
+  { unfold lenZ in E. destruct L; [congruence | cbn in E; lia]. }
+  rewrite Hrep. unfold after_effects. rewrite fold_left_app.
+  match goal with |- fst (fold_left _ _ ?x) = _ => destruct x as [l d] end. reflexivity.
+Qed.
